@@ -77,12 +77,14 @@ CHECKS = {
              "queues/samples whose op timestamps fall before, exactly at and after sample times, and evaluating spec + model in Coq on the serialized stacks. "
              "Converter level: C02_queue_history (for EVERY record history a process's queue is the mappings announced for its pid since its last exec, after the queue inherited at fork), "
              "C02_fork_inherits, C02_exec_clears, C02_rel_start_offset / C02_rel_start_segments (relative start = page offset, or SVMA of the file offset minus the image base), "
-             "C02_call_chain_order, C02_e2e_attribution (composition for time-ordered recordings). Tied end to end: generated recordings (mappings added, overlapped, replaced, inherited across fork, "
+             "C02_call_chain_order, C02_e2e_attribution (composition for time-ordered recordings). The bias computation underneath the relative start is tied by translation: tools/xlate_vb.py re-emits "
+             "SvmaFileRange::encompasses_file_range / is_encompassed_by_file_range and compute_vma_bias_impl (samply/src/linux_shared/svma_file_range.rs) as Gallina on every run and "
+             "C02_vma_bias_translation_sound / _total prove the translation equal to the model's vma_bias wherever a debug build does not panic, with the exact no-panic bounds. Tied end to end: generated recordings (mappings added, overlapped, replaced, inherited across fork, "
              "cleared by exec, stamped before / exactly at / after samples; call chains with leaf/return addresses at range boundaries, unmapped addresses, all context markers; absent binaries and "
-             "an ELF fixture at arbitrary load addresses) -> perf.data -> samply import -> resolved frames, decided by a model-free specification in Coq.",
-        note="Trusted: Coq kernel; harness h_samply + JSON read-back; C11's model of LibMappings; perf.data writer; the ELF program-header reader in vlib/c02e.py (segments are an input of the model). "
+             "an ELF fixture and a generated shared object with packed segments at arbitrary load addresses) -> perf.data -> samply import -> resolved frames, decided by a model-free specification in Coq.",
+        note="Trusted: Coq kernel; tools/xlate_vb.py (its reading of the Rust subset: checked u64 + and -, wrapping_sub, iter().find = first match, short-circuit ||); harness h_samply + JSON read-back; C11's model of LibMappings; perf.data writer; the ELF program-header reader in vlib/c02e.py (segments are an input of the model). "
              "Not modelled: jitdump / perf-map side tables, simpleperf symbol tables (case 1), vdso (case 3), PE mappings, DWARF-unwound stack fragments, --fold-recursive-prefix.",
-        technique="Coq proof (queue replay = filter by timestamp on ordered queues; composition lemma; refinement to C11's history specification) + differential correspondence run evaluated by vm_compute",
+        technique="Coq proof (queue replay = filter by timestamp on ordered queues; composition lemma; refinement to C11's history specification; the bias computation proved equal to a translation of the source regenerated on every run) + differential correspondence run evaluated by vm_compute",
         design="4/C01,C17,C02"),
     "C20": dict(
         text="Coq theorem C20_listing: for every decoder satisfying two stated assumptions (success consumes 1..remaining bytes; 'invalid' consumes >= 1 byte), every byte count, "
